@@ -23,6 +23,7 @@ KIT_L = [
     'nbdime.diffing.seq_bruteforce.bruteforce_lcs_indices', 'nbdime.diffing.seq_bruteforce.diff_sequence_bruteforce',
     'nbdime.diff_utils.count_consumed_symbols', 'nbdime.diffing.sequences.diff_sequence',
     'nbdime.diffing.generic.diff_lists',
+    'nbdime.diffing.snakes.compute_diff_from_snakes', 'nbdime.diffing.generic.diff_sequence_multilevel',
 ]
 
 
